@@ -239,6 +239,15 @@ func (f *Frame) callByContract(ins ssa.Instruction, fc *FuncContract, callee *ss
 			}
 		}
 	}
+	// a renamed parameter of the callee: its contract still uses the recorded name
+	for o, n := range renamedLocals(shortPkg(fc.Pkg)+"."+fc.Target, callee, u.eng.localsBaseline()) {
+		if v, ok := params[n]; ok {
+			params[o] = v
+			if a, ok2 := f.callArgs[n]; ok2 {
+				f.callArgs[o] = a
+			}
+		}
+	}
 	pkg := u.eng.typesPkgByPath(fc.Pkg)
 	lookupPre := func(name string) (CVal, bool) { v, ok := params[name]; return v, ok }
 	cname := calleeShort(callee)
